@@ -16,7 +16,14 @@ Reference (written from the property, not from the code):
 Not demanded (reading decisions): exact key set of context.variable (only what the property names), LenaTypeError
 conditions, dot-attribute access, lena.variables.functions (abs, Cm: documented as unsound, not named by the property),
 associativity of nested Compose beyond "Compose == Sequence" (for nested chains both the per-element and the flattened
-list of types are accepted for "compose")."""
+list of types are accepted for "compose"), a type= keyword of Compose.
+
+Failures expected on the unchanged tree (bc9989c + C20 fixes), each with its own fid:
+ * FID_17A  DESIGN section 6 row 17, first half (variable.py:209 list.extend of the type *string*);
+ * FID_17B  row 17, second half: chains containing an untyped variable (outside the quantifier's "distinct types",
+            inside the statement's "for any variables");
+ * Compose/name-keyword-ignored/...  Compose(..., name=X) keeps the last variable's name (docstring: name "can set the
+            name of the composed variable"; the property: context.variable carries the name of the resulting variable)."""
 import copy
 import itertools
 import os
@@ -240,8 +247,9 @@ def frame_ok(res, pre):
 
 
 # ---------------------------------------------------------------- chains: Compose / Sequence
-def check_chain(chain, pre, data, repeats=2):
-    """-> list of (fid, text)"""
+def check_chain(chain, pre, data, kw=None, repeats=2):
+    """-> list of (fid, text); kw: keyword arguments of the Compose (then it is not compared with the Sequence)"""
+    kw = kw or {}
     out = []
 
     def bad(fid, text):
@@ -254,8 +262,8 @@ def check_chain(chain, pre, data, repeats=2):
     typed = all(ftypes) and len(set(ftypes + ptypes)) == len(ftypes + ptypes)
     ckind = ("nested-" if nested else "") + ("typed-chain" if typed else "chain-with-untyped-variable")
     where = "%s/%s" % (ckind, pkind)
-    desc = "chain %s on %r with context %r" % ([(s_name(e), s_type(e)) if e["k"] == "var" else describe(e) for e in chain],
-                                               data, pre)
+    desc = "chain %s%s on %r with context %r" % ([(s_name(e), s_type(e)) if e["k"] == "var" else describe(e) for e in chain],
+                                                 (" Compose keywords %r" % kw) if kw else "", data, pre)
 
     pool = []
     ok, nodes = attempt(lambda: [Node(e, pool) for e in chain])
@@ -267,7 +275,7 @@ def check_chain(chain, pre, data, repeats=2):
             bad("%s/construction-changes-component-var_context" % type(n.real).__name__, "building " + desc)
     vs = [n.real for n in nodes]
     top_before = [copy.deepcopy(v.var_context) for v in vs]
-    ok, comp = attempt(lambda: Compose(*vs))
+    ok, comp = attempt(lambda: Compose(*vs, **copy.deepcopy(kw)))
     if not ok:
         bad("Compose/construct/unexpected-%s/%s" % (comp, ckind), "Compose of " + desc)
         return out
@@ -300,27 +308,43 @@ def check_chain(chain, pre, data, repeats=2):
     if ok2:
         results.append(("Sequence", rs))
     last = chain[-1]
+    reserved = set(["name", "type", "compose"]) | set(ftypes) | set(ptypes)
+    earlier_attrs = set(k for x in flat[:-1] for k in s_attrs(x))
+    if pre is not None and isinstance(pre.get("variable"), dict):
+        earlier_attrs |= set(pre["variable"])
     for who, r in results:
         vc = get_varc(r)
         if vc is None:
             bad("%s/result-not-(data,context)-with-variable/%s" % (who, where), "%s, %s -> %r" % (who, desc, r))
             continue
+        name_exp, attrs_exp = s_name(last), dict(s_attrs(last))
+        if who == "Compose" and kw:
+            name_exp = kw.get("name", name_exp)
+            attrs_exp.update({k: v for k, v in kw.items() if k != "name"})
         if not same(r[0], ref):
             bad("%s/data-not-nested-getters" % who, "%s, %s: data %r, expected %r" % (who, desc, r[0], ref))
         if not frame_ok(r, pre0):
             bad("%s/frame/context-outside-variable-changed/%s" % (who, pkind), "%s, %s -> context %r" % (who, desc, r[1]))
-        if vc.get("name") != s_name(last):
-            bad("%s/variable.name-not-of-last-variable/%s" % (who, where),
-                "%s, %s: name %r, expected %r" % (who, desc, vc.get("name"), s_name(last)))
-        if not has_items(vc, s_attrs(last)):
+        if vc.get("name") != name_exp:
+            if who == "Compose" and "name" in kw and vc.get("name") == s_name(last):
+                bad("Compose/name-keyword-ignored/variable.name-is-last-variable's",
+                    "%s: name %r, expected %r" % (desc, vc.get("name"), name_exp))
+            else:
+                bad("%s/variable.name-not-of-last-variable/%s" % (who, where),
+                    "%s, %s: name %r, expected %r" % (who, desc, vc.get("name"), name_exp))
+        if not has_items(vc, attrs_exp):
             bad("%s/variable-attributes-of-last-variable-missing/%s" % (who, where),
-                "%s, %s: variable %r lacks %r" % (who, desc, vc, s_attrs(last)))
+                "%s, %s: variable %r lacks %r" % (who, desc, vc, attrs_exp))
         if s_type(last) and vc.get("type") != s_type(last):
             bad("%s/variable.type-not-of-last-variable/%s" % (who, where),
                 "%s, %s: type %r, expected %r" % (who, desc, vc.get("type"), s_type(last)))
+        stale = sorted(k for k in earlier_attrs if k not in reserved and k not in attrs_exp and k in vc)
+        if stale:
+            bad("%s/attribute-of-earlier-variable-at-top-level-of-context.variable/%s" % (who, pkind),
+                "%s, %s: variable %r still has %r of an earlier variable" % (who, desc, vc, stale))
 
     # sentence 1: same context
-    if ok1 and ok2 and get_varc(rc) is not None and get_varc(rs) is not None and not same(rc[1], rs[1]):
+    if not kw and ok1 and ok2 and get_varc(rc) is not None and get_varc(rs) is not None and not same(rc[1], rs[1]):
         cv, sv = get_varc(rc), get_varc(rs)
         alltypes = set(ftypes + ptypes)
         diffkeys = set(k for k in set(cv) | set(sv) if k not in cv or k not in sv or not same(cv[k], sv[k]))
@@ -346,12 +370,15 @@ def check_chain(chain, pre, data, repeats=2):
         must_have = flat
         if got is None and len(accepted[0]) == 1:
             pass
+        elif nested and got == accepted[0] and got != accepted[1]:
+            # per-element reading: a Compose element counts as one variable of its (last) type
+            must_have = [s_flat(e)[-1] for e in chain]
         elif got not in accepted:
             text = "%s: compose = %r, expected %r" % (desc, got, accepted[-1])
             if nested and got == spelled(ptypes, chain):
                 bad(FID_17A, text)
-                # the types missing from the list are not carried on: a consequence, not a second finding
-                must_have = [s_flat(e)[-1] for e in chain]
+                # types missing from the list are not carried on by later variables: a consequence, not a second finding
+                must_have = [flat[-1]]
             else:
                 bad("Sequence/compose-not-types-in-application-order/%s" % where, text)
         for x in must_have:
@@ -453,6 +480,12 @@ def check_combine(spec, pre, data, repeats=2):
         bad("Combine/variable.name", "%s: name %r, expected %r" % (desc, vc.get("name"), s_name(spec)))
     if not has_items(vc, s_attrs(spec)):
         bad("Combine/variable-attributes-or-dim-missing", "%s: variable %r lacks %r" % (desc, vc, s_attrs(spec)))
+    if pre is not None and isinstance(pre.get("variable"), dict):
+        stale = sorted(k for k in pre["variable"] if k not in ("name", "type", "compose") and k not in ptypes
+                       and k not in s_attrs(spec) and k != "combine" and k in vc)
+        if stale:
+            bad("Combine/attribute-of-earlier-variable-at-top-level-of-context.variable/%s" % pkind,
+                "%s: variable %r still has %r of the earlier variable" % (desc, vc, stale))
     cb = vc.get("combine")
     good = isinstance(cb, (tuple, list)) and len(cb) == n
     if good:
@@ -503,8 +536,8 @@ def check_combine(spec, pre, data, repeats=2):
 
 
 # ---------------------------------------------------------------- replay
-def replay_chain(chain, pre, data, fid):
-    return fid in [f for f, _ in check_chain(chain, pre, data)]
+def replay_chain(chain, pre, data, kw, fid):
+    return fid in [f for f, _ in check_chain(chain, pre, data, kw)]
 
 
 def replay_combine(spec, pre, data, fid):
@@ -522,6 +555,8 @@ TYPE_STYLES = {
 def attrs_of(style, i):
     if style == "none":
         return {}
+    if style == "own":
+        return {"own%d" % i: [i], "unit": "u%d" % i}
     if style == "simple":
         return {"unit": "u%d" % i, "latex_name": "L_%d" % i}
     return {"range": [i, [i + 1, {"deep": i}]], "zero": 0, "none": None, "flag": False, "empty": {},
@@ -545,7 +580,7 @@ def pre_contexts():
         with_var(ref_varctx([("old", "told", {"unit": "u"})])),
         {"variable": ref_varctx([("o", "p", {})])},
         with_var(ref_varctx([("o1", "ta", {"w": [1]}), ("o2", "tb", {})])),
-        with_var(ref_varctx([("o1", "x", {}), ("o2", "y", {"unit": 0}), ("o3", "w", {"w": {}})])),
+        with_var(ref_varctx([("o1", "x", {}), ("o2", "y", {"unit": 0}), ("o3", "w", {"ww": {}})])),
     ]
 
 
@@ -618,20 +653,21 @@ def body(R):
     # ---- S1
     R.scope("Compose / Sequence / Variable.__call__ on typed chains",
             "all chains of n=1..5 variables with pairwise distinct non-empty types x 3 type alphabets (multi-char, single-char, "
-            "mixed; not in sorted order) x 3 attribute sets (none / same-named simple / nested+falsy) x 10 values' contexts "
+            "mixed; not in sorted order) x 4 attribute sets (none / differently named per variable / same-named / nested+falsy) x 10 values' contexts "
             "(bare data, {}, other keys only, variable={}, untyped variable, Combine-made variable, typed variable with 1, 1, 2, 3 "
             "earlier types) x 2 data; each: data = nested getters, Compose context = Sequence context, name/attributes/type of "
             "the last variable, every type's attributes and compose order (on the Sequence), context outside variable unchanged, "
-            "var_contexts/getters unchanged, 2 repetitions incl. after scribbling over the first result", True)
+            "no attribute of an earlier variable left at the top level, var_contexts/getters unchanged, 2 repetitions incl. after "
+            "scribbling over the first result", True)
     for n in range(1, nmax + 1):
         for ts, types in sorted(TYPE_STYLES.items()):
-            for astyle in ("none", "simple", "nested"):
+            for astyle in ("none", "own", "simple", "nested"):
                 chain = [V("v%d" % i, types[i], attrs_of(astyle, i), i) for i in range(n)]
                 for pre in pres:
                     for data in datas:
                         res = check_chain(chain, pre, data)
                         R.case(True, {"chain": [describe(e) for e in chain], "pre": pre, "data": data})
-                        report(R, res, "replay_chain", [chain, pre, data])
+                        report(R, res, "replay_chain", [chain, pre, data, None])
 
     # ---- S2
     R.scope("Combine",
@@ -656,7 +692,7 @@ def body(R):
     # ---- S3
     n3 = 5 if R.thorough else 4
     R.scope("Compose / Sequence on chains with untyped variables ('for any variables')",
-            "all typed/untyped masks of chains of n=1..%d (multi-char and single-char types, simple attributes) x the 10 contexts: "
+            "all typed/untyped masks of chains of n=1..%d (multi-char and single-char types, attributes named differently per variable) x the 10 contexts: "
             "data, Compose context = Sequence context, name/attributes of the last variable, frame, var_contexts unchanged, "
             "repetition (type bookkeeping is demanded only for fully typed chains)" % n3, True)
     for n in range(1, n3 + 1):
@@ -665,11 +701,11 @@ def body(R):
                 continue
             for ts in ("multi-char", "single-char"):
                 types = TYPE_STYLES[ts]
-                chain = [V("v%d" % i, types[i] if mask[i] else "", attrs_of("simple", i), i) for i in range(n)]
+                chain = [V("v%d" % i, types[i] if mask[i] else "", attrs_of("own", i), i) for i in range(n)]
                 for pre in pres:
                     res = check_chain(chain, pre, 7)
                     R.case(True, {"chain": [describe(e) for e in chain], "pre": pre})
-                    report(R, res, "replay_chain", [chain, pre, 7])
+                    report(R, res, "replay_chain", [chain, pre, 7, None])
 
     # ---- S4
     n4 = 5 if R.thorough else 4
@@ -702,10 +738,24 @@ def body(R):
                 for pre in pres4:
                     res = check_chain(chain, pre, 7)
                     R.case(True, {"chain": [describe(e) for e in chain], "pre": pre})
-                    report(R, res, "replay_chain", [chain, pre, 7])
+                    report(R, res, "replay_chain", [chain, pre, 7, None])
+
+    # ---- S6
+    R.scope("Compose with keyword arguments (name, attributes)",
+            "typed chains of n=1..3 x 3 keyword sets (name; name+attribute; attribute overriding one of the last variable) x "
+            "4 contexts: data, context.variable.name = the given name (docstring: 'name can set the name of the composed variable'), "
+            "keyword attributes present, types of the chain kept (on the Sequence), frame, var_contexts unchanged, repetition; "
+            "no comparison with the Sequence", True)
+    for n in range(1, 4):
+        chain = [V("v%d" % i, TYPE_STYLES["multi-char"][i], attrs_of("own", i), i) for i in range(n)]
+        for kw in ({"name": "given"}, {"name": "given", "latex_name": "G", "range": [0, [1]]}, {"unit": "overridden"}):
+            for pre in (pres[0], pres[2], pres[4], pres[6]):
+                res = check_chain(chain, pre, 7, kw)
+                R.case(True, {"chain": [describe(e) for e in chain], "kw": kw, "pre": pre})
+                report(R, res, "replay_chain", [chain, pre, 7, kw])
 
     # ---- S5
-    n5 = 20000 if R.thorough else 1500
+    n5 = 50000 if R.thorough else 1500
     R.scope("random chains and Combines",
             "%d seeded cases: n=1..5, random distinct types (1..5 characters), 0..3 random nested JSON attributes from 8 names, "
             "random value context (bare / other keys / untyped variable / typed variable with 1..3 earlier types, random attributes); "
@@ -721,19 +771,19 @@ def body(R):
         r = rng.random()
         if r < 0.6:
             res = check_chain(leaves, pre, data)
-            args, kind = [leaves, pre, data], "replay_chain"
+            args, kind = [leaves, pre, data, None], "replay_chain"
         elif r < 0.8:
             for i in rng.sample(range(n), rng.randint(1, n)):
                 leaves[i]["type"] = ""
             res = check_chain(leaves, pre, data)
-            args, kind = [leaves, pre, data], "replay_chain"
+            args, kind = [leaves, pre, data, None], "replay_chain"
         elif r < 0.9:
             if pre is not None and pre_info(pre)[0] == "typed-variable":
                 del pre["variable"]
             groups = rng.choice(list(compositions(n)))
             chain = []
             for g in groups:
-                if len(g) == 1 and rng.random() < 0.3:
+                if len(g) == 1 and rng.random() < 0.3 and not any(e["k"] == "combine" for e in chain):
                     chain.append(Cb([leaves[g[0]], V("w", types[n], rand_attrs(rng), 30)],
                                     {"type": types[n + 1]} if rng.random() < 0.5 else {}))
                 elif len(g) == 1:
@@ -741,7 +791,7 @@ def body(R):
                 else:
                     chain.append(Cp(*[leaves[i] for i in g]))
             res = check_chain(chain, pre, data)
-            args, kind = [chain, pre, data], "replay_chain"
+            args, kind = [chain, pre, data, None], "replay_chain"
         else:
             of = leaves[:4]
             if len(of) >= 3 and rng.random() < 0.4:
